@@ -203,8 +203,130 @@ def accept_rule(ctx, F):
     return n
 
 
+_RANGE = {'i32': (-2 ** 31, 2 ** 31 - 1), 'i64': (-2 ** 63, 2 ** 63 - 1), 'u32': (0, 2 ** 32 - 1), 'u64': (0, 2 ** 64 - 1),
+          'usize': (0, 2 ** 64 - 1), 'isize': (-2 ** 63, 2 ** 63 - 1)}
+
+
+def _ev(t, env):
+    """value of an integer / boolean term under env (symbol -> int); None when it is not determined by env"""
+    if not isinstance(t, tuple) or not t:
+        return None
+    if t in env:
+        return env[t]
+    k = t[0]
+    if k == 'int':
+        return t[1]
+    if k == 'bool':
+        return int(t[1])
+    if k in ('cast', 'tryfrom'):
+        return _ev(t[1], env)
+    if k == 'un' and t[1] == 'Not':
+        a = _ev(t[2], env)
+        return None if a is None else int(not a)
+    if k == 'bin' and len(t) >= 4:
+        a, b = _ev(t[2], env), _ev(t[3], env)
+        if t[1] in ('BitAnd', 'BitOr') and a is not None and b is not None:
+            return int(bool(a) and bool(b)) if t[1] == 'BitAnd' else int(bool(a) or bool(b))
+        if a is None or b is None:
+            return None
+        op = t[1]
+        if op in ('Add', 'Sub', 'Mul'):
+            return a + b if op == 'Add' else a - b if op == 'Sub' else a * b
+        if op == 'Div':
+            return None if b == 0 else int(a / b)
+        if op in ('Lt', 'Le', 'Eq', 'Ne', 'Gt', 'Ge'):
+            return int({'Lt': a < b, 'Le': a <= b, 'Eq': a == b, 'Ne': a != b, 'Gt': a > b, 'Ge': a >= b}[op])
+        return None
+    if k == 'discr' and isinstance(t[1], tuple) and t[1] and t[1][0] == 'checked':
+        c = t[1]
+        a, b = _ev(c[2], env), _ev(c[3], env)
+        if a is None or b is None or c[1] not in ('Add', 'Sub', 'Mul'):
+            return None
+        v = a + b if c[1] == 'Add' else a - b if c[1] == 'Sub' else a * b
+        lo, hi = _RANGE.get(str(c[4]), (None, None)) if len(c) > 4 else (None, None)
+        if lo is None:
+            return None
+        return int(lo <= v <= hi)
+    return None
+
+
+def recsize_rule(ctx, F):
+    """C03.recsize: before the content reader is called, a record is refused for its declared length only when no record of any
+    type can have that length.  The smallest record is the null shape's (2 words: its type code); the tests on the declared
+    length are evaluated for sample lengths from that up."""
+    ctx.rule("C03.recsize", "the length tests made before a record's content is decoded (record reader, generic and typed "
+                            "ReadableShape::read_from) refuse no length a record can have: every path returning an error of its own "
+                            "is unsatisfiable for a content length of 2 words (the null shape) and up", floor=2)
+    null_ok = any("NullShape" in i["self_ty"] for i in F.trait_impls("record::ConcreteReadableShape"))
+    targets = []
+    for g in F.identity_fns():
+        if g.get("krate") != F.crate or g.get("kind") == "Closure":
+            continue
+        d = [mir.callee_decl(t) for b, t in mir.calls(g)]
+        if "record::RecordHeader::read_from" in d and "record::ReadableShape::read_from" in d:
+            targets.append((g, 'words'))
+    for imp in F.trait_impls("record::ReadableShape"):
+        for m in imp["methods"]:
+            g = F.fns.get(m["key"])
+            if g is not None and m["name"] == "read_from":
+                # the generic value has a null-shape variant; a typed read admits the 4-byte record only if the null shape is typed
+                targets.append((g, 'bytes' if null_ok or imp["self_ty"].split("::")[-1] == "Shape" else 'bytes>4'))
+    if len(targets) < 3:
+        ctx.missing("C03.recsize", "the record reader and the two ReadableShape::read_from (found %d)" % len(targets))
+    for g, unit in targets:
+        site = ctx.site_of(F, g["def"])
+        try:
+            # the content readers stay opaque: their own size tests are C03.size's subject
+            ps, _ = util.run_fn(F, g, summarise_pure=False,
+                                inline=lambda g2, t: not mir.callee_decl(t).endswith("::read_shape_content"))
+        except absint.Unanalysable as e:
+            ctx.unanalysable("C03.recsize", g["def"], str(e))
+            continue
+        dom = (2, 3, 10, 22, 2 ** 30 - 1) if unit == 'words' else (4, 6, 20, 44, 2 ** 31 - 2) if unit == 'bytes' else (6, 20, 44, 2 ** 31 - 2)
+        unit = unit.split('>')[0]
+        refused = {}
+        npaths = 0
+        for p in ps:
+            if p.status != 'return' or not is_agg(p.ret, None, 'Err') or not is_agg(agg_field(p.ret, '0')):
+                continue
+            if unit == 'words':
+                rd = [e[-1] for e in p.io() if e[1] == 'read' and e[3].get('ty') == 'i32']
+                sym = rd[1] if len(rd) >= 2 else None
+            else:
+                sym = ('param', 2)
+            if sym is None:
+                continue
+            atoms = [(t, v) for t, v in p.cons if any(x == sym for x in absint.subterms(t))]
+            if not atoms:
+                continue
+            npaths += 1
+            for val in dom:
+                ok = True
+                for t, v in atoms:
+                    x = _ev(t, {sym: val})
+                    if x is None:
+                        ok = None
+                        break
+                    want = (x == v) if isinstance(v, int) else (x not in v[1]) if isinstance(v, tuple) and v and v[0] == 'not' else None
+                    if want is None:
+                        ok = None
+                        break
+                    if not want:
+                        ok = False
+                        break
+                if ok:
+                    refused.setdefault(val, absint.term_str(agg_field(p.ret, '0'))[:50])
+        bad = refused
+        ctx.ob("C03.recsize", g["def"].split("::")[-1] + (" (typed)" if "<S" in g["def"] or "impl" in g["def"] else ""), not bad,
+               "%d error path(s) test the declared length; none is taken for a length of %s %s" % (npaths, list(dom), unit) if not bad else
+               "a record whose declared content length is %s %s is refused with %s%s" % (
+                   sorted(bad)[0], unit, bad[sorted(bad)[0]], " (the null shape's record is exactly that long)" if sorted(bad)[0] in (2, 4) else ""),
+               site=site, key="C03.recsize|%s" % g["def"])
+
+
 def run(ctx):
     _run(ctx)
+    recsize_rule(ctx, ctx.facts("default"))
     ctx.delegate("C01", ["C01.ring", "C01.patch"], "C03.rings",
                  "rings and patches are decoded as stored: vertices in stored order whatever the winding, the role from the winding "
                  "alone, ring i from part i, each patch kind as its own variant", floor=8)
